@@ -413,6 +413,9 @@ class ClassInfo:
                     else:
                         visit(b)
             visit(self)
+            c3 = _c3(self)
+            if c3 is not None and {c.qual for c in c3} == {c.qual for c in order}:
+                order = c3     # real method resolution order (C3); the DFS order is only the fallback
             # external object-only bases are not "open" in the sense of unknown attrs
             ext = []
             for c in order:
@@ -481,6 +484,35 @@ class ClassInfo:
             if c.is_subclass_of(self) and not (strict and c is self):
                 out.append(c)
         return out
+
+
+def _c3(ci, _depth=0):
+    """C3 linearisation over the known (repo) bases; None if inconsistent or too deep"""
+    if _depth > 30:
+        return None
+    bases = [b for b in ci.bases if b is not None]
+    seqs = []
+    for b in bases:
+        l = _c3(b, _depth + 1)
+        if l is None:
+            return None
+        seqs.append(list(l))
+    seqs.append(list(bases))
+    out = [ci]
+    while True:
+        seqs = [s for s in seqs if s]
+        if not seqs:
+            return out
+        for s in seqs:
+            cand = s[0]
+            if not any(cand in t[1:] for t in seqs):
+                break
+        else:
+            return None
+        out.append(cand)
+        for s in seqs:
+            if s and s[0] is cand:
+                del s[0]
 
 
 class Stdlib:
